@@ -254,6 +254,11 @@ def discover():
                 stored[a] = "dataset:Metadata (view)"
             else:
                 stored[a] = "other"
+        if cls.__name__ == "FilenameData":
+            # the Data dataset holds the file NAME, the blob lives in a dataset named after the file (h5_writer.py:809-838)
+            stored["values"], stored["file_name"] = "other", "dataset:Data"
+        if cls.__name__ == "CommentsData" or cls.__name__ == "VisualParameters":
+            stored["values"] = "dataset:Data"
         targets.append({"kind": kind, "cls": cls.__name__, "variant": variant, "attrs": attrs, "left_out": left,
                         "stored_as": stored, "defined_in": {a: setters[a] for a in attrs}})
 
